@@ -19,7 +19,7 @@ LEVEL = "model_checking"
 RULE = (
     "quick: all pairs of G1(4,2) x UNMATCHED x {IoU,Dice,ASSD} x threshold classes and x MATCHED x decision in {none,IoU,Dice,ASSD} x threshold classes; "
     "G1(4,2) x 27 refs x UNMATCHED(all candidates eligible) x decision metric x threshold classes; G2(2,2,2) x 27 refs and binary G3(2,2,2) x 16 refs x SEMANTIC x "
-    "backend in {default,cc3d,scipy} x IoU threshold classes (+ Dice decision); RLE(2) volumes; one SEMANTIC evaluator (default backend) reused after a 3-D / 1-D input for G2(2,2,2) x 9 refs; 5 / 16 / 17 / 33 instances (thorough 1..69) with overlaps 4/4, 3/4, 2/4 x input type. thorough: G1(5,2)^2, G2(2,2,2)^2, G2(2,3,2) x 81, G3(2,2,2,1)^2, G3(2,2,3,1) x 32, RLE(3) with the same products. "
+    "backend in {default,cc3d,scipy} x IoU threshold classes (+ Dice decision); RLE(2) volumes; one SEMANTIC evaluator (default backend) reused after a 3-D / 1-D input for G2(2,2,2) x 9 refs; 5 / 16 / 17 / 33 / 255 / 256 / 257 instances (thorough 1..69, 1000) with overlaps 4/4, 3/4, 2/4 x input type; SEMANTIC class values 255, 256, 257, 65535, 65536, 65537 on 3 bases (2-D, 3-D) x side {pred, ref, both} x 3 backends. thorough: G1(5,2)^2, G2(2,2,2)^2, G2(2,3,2) x 81, G3(2,2,2,1)^2, G3(2,2,3,1) x 32, RLE(3) with the same products. "
     "non-trivial = both sides non-empty and at least one candidate pair; distinct by (arrays, input type)"
 )
 ASSUMPTIONS = [
@@ -48,9 +48,15 @@ def blocks(tier):
             B.append(("rle", 2, lo, hi))
         B.append(("reuse", 9))
         B.append(("many", (5, 16, 17, 33)))
+        for n in (255, 256, 257):
+            B.append(("many", (n,)))
+        B.append(("semval",))
     else:
         B.append(("reuse", 27))
         B.append(("many", tuple(range(1, 70))))
+        for n in (255, 256, 257, 1000):
+            B.append(("many", (n,)))
+        B.append(("semval",))
         add("um", (5,), 2, None, 1)
         add("um", (2, 2), 2, None, 1)
         add("um", (2, 3), 2, 81, 1)
@@ -83,6 +89,12 @@ def run_block(block, acc):
         for n in block[1]:
             for itype in ("MATCHED", "UNMATCHED", "SEMANTIC"):
                 run_case({"kind": "many", "n": n, "itype": itype}, acc)
+        return
+    if kind == "semval":
+        for v in SEMVALS:
+            for b in range(len(SEMVAL_BASES)):
+                for backend in ("default", "cc3d", "scipy"):
+                    run_case({"kind": "semval", "v": v, "b": b, "backend": backend}, acc)
         return
     if kind == "reuse":
         n = sc.grid_count((2, 2), 2)
@@ -210,6 +222,29 @@ def _reuse_case(case, acc):
         acc.violation("C01:reused_evaluator:SEMANTIC", case, f"evaluator first used on a {case['first']} map, then pred={pred.tolist()} ref={ref.tolist()}: result tp/fp/fn={obs['tp']}/{obs['fp']}/{obs['fn']} n_pred={obs['num_pred_instances']} n_ref={obs['num_ref_instances']} is not an admissible result of the definitions")
 
 
+# semantic class values at the edges of the 8/16-bit ranges (the approximator chooses a dtype from the largest value)
+SEMVALS = (255, 256, 257, 65535, 65536, 65537)
+SEMVAL_BASES = [
+    ([[1, 1, 0, 0], [0, 0, 2, 2], [2, 0, 0, 1]], [[1, 1, 1, 0], [0, 2, 2, 0], [2, 2, 0, 0]]),
+    ([[2, 2, 0, 1], [0, 0, 0, 1]], [[2, 2, 0, 0], [0, 1, 0, 1]]),
+    ([[[2, 0], [0, 0]], [[0, 0], [0, 2]]], [[[2, 0], [0, 1]], [[0, 0], [0, 2]]]),
+]
+
+
+def _semval_case(case, acc):
+    """class 2 of the base carries the value v (class 1 stays 1), on the prediction side, the reference side and both"""
+    v, b, backend = case["v"], case["b"], case["backend"]
+    acc.case("semval", v, b, backend)
+    bp, br = (np.array(x, dtype=np.uint32) for x in SEMVAL_BASES[b])
+    dt = np.uint16 if v <= 65535 else np.uint32
+    for side in ("pred", "ref", "both"):
+        pred = np.where(bp == 2, v, bp).astype(dt) if side != "ref" else bp.astype(dt)
+        ref = np.where(br == 2, v, br).astype(dt) if side != "pred" else br.astype(dt)
+        matcher = ["thr", "IOU", 0.5, False]
+        judge(acc, {**case, "side": side}, pred, ref, "SEMANTIC", matcher, backend, None, e2e.Model(pred, ref, "SEMANTIC", backend))
+    acc.nontriv("semval", v, b, backend)
+
+
 def _many_case(case, acc):
     """n instances (more than the usual handful, also more than worker processes) with varying overlaps, judged by the reference model"""
     n, itype = case["n"], case["itype"]
@@ -228,6 +263,8 @@ def _many_case(case, acc):
 
 
 def run_case(case, acc):
+    if case["kind"] == "semval":
+        return _semval_case(case, acc)
     if case["kind"] == "many":
         return _many_case(case, acc)
     if case["kind"] == "reuse":
